@@ -69,6 +69,7 @@ func apiRun(args []string) error {
 	if variant == "core" {
 		parseableRoot(w)
 		textScannerEntryPoints(w)
+		deepAndHistoryEntryPoints(w)
 	}
 	for gi := range gs {
 		g := &gs[gi]
@@ -285,6 +286,65 @@ type tsGrammar struct {
 
 // textScannerEntryPoints: a parser over NewTextScannerLexer(configure) (comments kept): every entry point must see the
 // configured lexer.
+// deepAndHistoryEntryPoints: (a) a deeply nested input with and without the Trace option; (b) on ONE parser, calls without
+// any ParseOption before and after a call with AllowTrailing(true): an option of one call must not carry over to the next.
+func deepAndHistoryEntryPoints(w *bufio.Writer) {
+	for _, e := range examples() {
+		if e.name != "expr" {
+			continue
+		}
+		for i, n := range []int{40, 4000} {
+			in := e.nested(n)
+			emit := func(ep, out string) { fmt.Fprintf(w, "deep\t0\t%d\t%s\t%s\n", i, ep, out) }
+			run := func(opts ...participle.ParseOption) string {
+				return runGuarded(func() (res string) {
+					defer func() {
+						if r := recover(); r != nil {
+							res = fmt.Sprintf("panic %v", r)
+						}
+					}()
+					v, err := e.parse("fn", in, opts...)
+					if err != nil {
+						return "err " + err.Error()
+					}
+					_ = v
+					return "ok"
+				})
+			}
+			emit("ParseString", run())
+			emit("ParseString+Trace", run(participle.Trace(io.Discard)))
+		}
+	}
+	p, err := participle.Build[mappedGrammar]()
+	if err != nil {
+		return
+	}
+	render := func(v *mappedGrammar, err error) string {
+		if err != nil {
+			return "err " + err.Error()
+		}
+		return "ok " + strings.Join(v.Words, "|")
+	}
+	for i, s := range []string{"a b 1 +", "x ) y", "1 2"} {
+		emit := func(ep, out string) { fmt.Fprintf(w, "history\t0\t%d\t%s\t%s\n", i, ep, out) }
+		v1, e1 := p.ParseString("fn", s)
+		emit("ParseString", render(v1, e1))
+		// a call WITH AllowTrailing(true) in between (through ParseFromLexer on a caller-built lexer, and through ParseString)
+		if l, lerr := p.Lexer().Lex("fn", strings.NewReader(s)); lerr == nil {
+			if pl, uerr := lexer.Upgrade(l); uerr == nil {
+				_, _ = p.ParseFromLexer(pl, participle.AllowTrailing(true))
+			}
+		}
+		_, _ = p.ParseString("fn", s, participle.AllowTrailing(true))
+		v2, e2 := p.ParseBytes("fn", []byte(s))
+		emit("ParseBytes", render(v2, e2))
+		v3, e3 := p.Parse("fn", strings.NewReader(s))
+		emit("Parse", render(v3, e3))
+		v4, e4 := p.ParseString("fn", s, participle.Trace(io.Discard))
+		emit("ParseString+Trace", render(v4, e4))
+	}
+}
+
 func textScannerEntryPoints(w *bufio.Writer) {
 	def := lexer.NewTextScannerLexer(func(s *scanner.Scanner) { s.Mode = scanner.GoTokens &^ scanner.SkipComments })
 	p, err := participle.Build[tsGrammar](participle.Lexer(def))
